@@ -153,9 +153,11 @@ impl<Meta> Archive<Meta> {
 
         // Step 1. Go over each index bucket and collect all the objects.
         // Check that the name hashes correctly.
+        let mut guard = self.chain_guard();
         for idx in 0.. usize_to_u64(self.meta.bucket_count) {
             let mut start = self.get_index(idx)?;
             while let Some(pos) = start {
+                guard.step()?;
                 let (header, name) = ObjectHeader::read_with_name(
                     &self.file, pos.into()
                 )?;
@@ -175,6 +177,7 @@ impl<Meta> Archive<Meta> {
         // Step 2. Go over the empty space.
         let mut start = self.get_empty_index()?;
         while let Some(pos) = start {
+            guard.step()?;
             let header = ObjectHeader::read(&self.file, pos.into())?;
             objects.push((u64::from(pos), header.size));
             stats.empty_count += 1;
@@ -206,6 +209,39 @@ impl<Meta> Archive<Meta> {
     /// The iterator will _not_ traverse objects in any kind of order.
     pub fn objects(&self) -> Result<ObjectsIter<'_, Meta>, ArchiveError> {
         ObjectsIter::new(self)
+    }
+}
+
+impl<Meta> Archive<Meta> {
+    /// Returns a guard against walking a chain of objects forever.
+    ///
+    /// Every object, empty or not, has at least a header, so a chain with
+    /// more links than headers fit into the file contains a loop, which
+    /// only happens if the archive is corrupt.
+    fn chain_guard(&self) -> ChainGuard {
+        ChainGuard { remaining: self.file.size / ObjectHeader::SIZE }
+    }
+}
+
+/// A guard against loops in the object chains of a corrupt archive.
+struct ChainGuard {
+    /// The number of steps we are still willing to take.
+    remaining: u64,
+}
+
+impl ChainGuard {
+    /// Registers a step along a chain.
+    ///
+    /// Returns an error if more steps have been taken than the archive can
+    /// possibly have objects.
+    fn step(&mut self) -> Result<(), ArchiveError> {
+        match self.remaining.checked_sub(1) {
+            Some(remaining) => {
+                self.remaining = remaining;
+                Ok(())
+            }
+            None => Err(ArchiveError::Corrupt("loop in object chain"))
+        }
     }
 }
 
@@ -479,7 +515,9 @@ impl<Meta: ObjectMeta> Archive<Meta> {
         }
 
         // We are further down the chain.
+        let mut guard = self.chain_guard();
         while let Some(pos) = curr {
+            guard.step()?;
             let header = ObjectHeader::read(&self.file, pos.into())?;
             if header.next == start {
                 ObjectHeader::update_next(pos.into(), next, &mut self.file)?;
@@ -498,7 +536,9 @@ impl<Meta: ObjectMeta> Archive<Meta> {
     ) -> Result<Option<FoundObject>, ArchiveError> {
         let mut start = self.get_index(hash)?;
         let mut prev = None;
+        let mut guard = self.chain_guard();
         while let Some(pos) = start {
+            guard.step()?;
             let (header, object_name) = ObjectHeader::read_with_name(
                 &self.file, pos.into()
             )?;
@@ -528,7 +568,9 @@ impl<Meta: ObjectMeta> Archive<Meta> {
         }
         let size = Self::page_object_size(name, data);
         let mut candidates = Vec::new();
+        let mut guard = self.chain_guard();
         while let Some(pos) = start {
+            guard.step()?;
             let header = ObjectHeader::read(&self.file, pos.into())?;
             start = header.next;
             if Self::fits(header.size, size) {
@@ -810,6 +852,9 @@ pub struct ObjectsIter<'a, Meta> {
 
     /// The next item in the currently visited bucket.
     next: Option<NonZeroU64>,
+
+    /// The guard against loops in the bucket chains.
+    guard: ChainGuard,
 }
 
 impl<'a, Meta> ObjectsIter<'a, Meta> {
@@ -819,6 +864,7 @@ impl<'a, Meta> ObjectsIter<'a, Meta> {
             archive,
             buckets: 1..usize_to_u64(archive.meta.bucket_count),
             next: archive.get_index(0)?,
+            guard: archive.chain_guard(),
         })
     }
 }
@@ -834,6 +880,12 @@ impl<'a, Meta: ObjectMeta> ObjectsIter<'a, Meta> {
     ) -> Result<Option<(Cow<'a, [u8]>, Meta, Cow<'a, [u8]>)>, ArchiveError> {
         loop {
             if let Some(pos) = self.next {
+                if let Err(err) = self.guard.step() {
+                    // Don’t come back here forever.
+                    self.next = None;
+                    self.buckets = 0..0;
+                    return Err(err)
+                }
                 let (next, res) = self.archive.file.read(pos.into(), |read| {
                     let header = ObjectHeader::read_from(read)?;
                     let name = read.read_slice(header.name_len)?;
